@@ -126,6 +126,7 @@ def c05(rep, env):
     def f(fb):
         CM.check_layout(rep, fb)
         CM.check_helpers(rep, fb)
+        CM.check_constructors(rep, fb)
     per_config(rep, env, f)
 
 
@@ -221,6 +222,7 @@ def c13(rep, env):
     def f(fb):
         only(rep, lambda r: CM.check_layout(r, fb), lambda o: ".gate." in o["rule"] or o["rule"].endswith("no-panic") or o["rule"].endswith("case-covered"))
         CM.check_b2b(rep, fb)
+        CM.check_wrappers(rep, fb)
         MI.check_iv_sizes(rep, fb)
         MI.check_panic_sites(rep, fb)
     per_config(rep, env, f)
@@ -231,6 +233,7 @@ def c14(rep, env):
         # whole number of blocks: CS1 = CS2 = plain CBC / raw ECB, CS3 = last two exchanged, one block = plain
         only(rep, lambda r: CM.check_layout(r, fb), lambda o: o["rule"] == "cts.layout" and o["instance"].endswith("d=0"))
         only(rep, lambda r: CM.check_helpers(r, fb), pre("helpers.one-block", "helpers.par-group"))
+        CM.check_constructors(rep, fb)
         BC.check_definition(rep, fb)
         BC.check_init(rep, fb)
         MI.check_ofb_one_backend(rep, fb)
@@ -284,7 +287,7 @@ REGISTRY = {
     "C02": {"run": c02, "level": "proof", "floors": {"def.out": 6, "def.state": 8, "par.closed-form": 2, "plumb.state-borrowed": 6}},
     "C03": {"run": c03, "level": "proof", "floors": {"def.out": 7, "def.state": 7, "par.closed-form": 2, "enc-only.kernel": 8, "buf.def": 12}},
     "C04": {"run": c04, "level": "proof", "floors": {"ctr.layout": 6, "ctr.ks.block": 6, "par.closed-form": 12, "ctr.resume": 6}},
-    "C05": {"run": c05, "level": "proof", "floors": {"cts.layout": 72, "cts.gate.exact": 12, "helpers.one-block": 4}},
+    "C05": {"run": c05, "level": "proof", "floors": {"cts.layout": 72, "cts.gate.exact": 12, "helpers.one-block": 4, "cts.init": 6}},
     "C06": {"run": c06, "level": "proof", "floors": {"belt.init": 1, "belt.ks.block": 1, "par.closed-form": 2}},
     "C07": {"run": c07, "level": "proof", "floors": {"par.no-override": 11, "par.closed-form": 18, "helpers.par-group": 7}},
     "C08": {"run": c08, "level": "proof", "floors": {"buf.def": 12, "buf.chunk": 14, "def.out": 3, "ctr.ks.block": 6, "belt.ks.block": 1, "alias.wrapper": 8}},
@@ -292,7 +295,7 @@ REGISTRY = {
     "C10": {"run": c10, "level": "proof", "floors": {"pos.get": 7, "pos.set": 7, "pos.counter-type": 7, "pos.core": 12}},
     "C11": {"run": c11, "level": "other", "floors": {"rem.exact": 7, "ctr.ks.advance": 6, "belt.ks.advance": 1, "wrapper.check-dominates": 3, "rem.ofb-unbounded": 1}},
     "C12": {"run": c12, "level": "proof", "floors": {"alias.same.out": 86, "alias.no-old-output": 87}},
-    "C13": {"run": c13, "level": "proof", "floors": {"cts.no-panic": 72, "cts.gate.exact": 12, "cts.gate.no-side-effect": 12, "b2b": 3, "ivsize": 21, "panic.site-covered": 30}},
+    "C13": {"run": c13, "level": "proof", "floors": {"cts.no-panic": 72, "cts.gate.exact": 12, "cts.gate.no-side-effect": 12, "b2b": 100, "ivsize": 21, "panic.site-covered": 30}},
     "C14": {"run": c14, "level": "proof", "floors": {"cts.layout": 36, "buf.def": 12, "buf.init": 2, "ofb.one-backend": 1, "ofb.same-function": 2, "alias.wrapper": 8, "keyinit.blanket": 21}},
     "C15": {"run": c15, "level": "proof", "floors": {"dep.kind": 24, "ctr.ks.data-independent": 6}},
     "C16": {"run": c16, "level": "proof", "floors": {"own.fields-by-value": 62, "own.clone-fieldwise": 58, "own.no-std": 18, "own.no-unsafe": 18, "own.calls-allow-listed": 18, "control.own": 5}},
